@@ -130,14 +130,19 @@ func (w *writer) Message() MessageWriter {
 
 // Free frees the writer and releases its internal resources.
 func (w *writer) Free() {
-	w.close()
-
 	if w.writerState == nil {
 		return
 	}
-	if !w.releaseState && !w.releaseWriter {
-		w.free()
+
+	// Autoreleased writer is released by close,
+	// it may be already reused by another goroutine after that.
+	if w.releaseState || w.releaseWriter {
+		w.close()
+		return
 	}
+
+	w.close()
+	w.free()
 }
 
 // end ends the top object and its parent field/element if present.
